@@ -147,7 +147,9 @@ def generate(chk: Check) -> dict[str, Any]:
             "MC_Codec",
             cfg_mc(ds, as_, ml, "ok", extra, ["InvHistoryIndependent", "LawsInEveryState"]),
             workers=4,
-            coverage=True,
+            # -coverage makes TLC re-evaluate constant definitions on every use: the resolved hierarchy table
+            # (MCflat) then costs 20x; for that family vacuity is established from the emitted histories instead
+            coverage="hier" not in extra,
             heap="3g",
         )
     # the defective designs (hooks for the top class only; structure function cached under the class NAME) must be
@@ -189,12 +191,16 @@ def generate(chk: Check) -> dict[str, Any]:
         tagname = f"MC_Codec[D={fam[0]},A={fam[1]},len<={fam[2]},{'+'.join(fam[3]) or 'base'}]"
         chk.add_tlc(tagname, r)
         chk.require(r.ok, f"design model {tagname} violates {r.violated}")
-        for act in ("DoStructure", "DoUnstructure"):
-            chk.require(r.coverage.get(act, (0, 0))[1] > 0, f"vacuous design run {tagname}: action {act} never taken")
+        if "hier" not in fam[3]:
+            for act in ("DoStructure", "DoUnstructure"):
+                chk.require(r.coverage.get(act, (0, 0))[1] > 0, f"vacuous design run {tagname}: action {act} never taken")
         scen = r.printed.get("SCEN", [])
         hs = r.printed.get("HIST", [])
         chk.require(len(scen) == 1 and len(hs) > 0, f"{tagname}: no histories emitted")
         hs.sort(key=lambda h: h["h"])
+        ops = {c["id"]: c["op"] for c in scen[0]["calls"]}
+        for op in ("S", "U"):
+            chk.require(any(ops[i] == op for h in hs for i in h["h"]), f"vacuous design run {tagname}: no {op} call in any history")
         out["hist"].append({"tag": tagname, "classes": scen[0]["classes"], "calls": scen[0]["calls"], "hists": hs})
     for design in refute:
         r = res[f"mc_refute_{design}"]
